@@ -1318,6 +1318,13 @@ func preprocessStylesheet(deviceMediaType, baseUrl string, stylesheetRules []pa.
 						url = str.Value
 					case pa.String:
 						url = str.Value
+					case pa.FunctionBlock:
+						// url("..."): a quoted url is tokenized as a function
+						if args := pa.RemoveWhitespace(str.Arguments); utils.AsciiLower(str.Name) == "url" && len(args) == 1 {
+							if s, ok := args[0].(pa.String); ok {
+								url = s.Value
+							}
+						}
 					}
 				} else {
 					continue
